@@ -7,7 +7,7 @@ import Octo.Drv.Codec
   impl line : E | N <verdict> | X <verdict> | F <dump> P <wire token>… R <verdict>
 -/
 namespace Octo.Drv.C30
-open Octo Octo.Sql Octo.Codec
+open Octo Octo.SqlSyn Octo.Codec
 
 def hexOfString (s : String) : String :=
   String.ofList (s.toList.flatMap fun c => [hexDigit ((c.toNat / 16) % 16), hexDigit (c.toNat % 16)])
